@@ -283,11 +283,12 @@ CHECKS = {
         rule=("rapid draws 1-3 sources (file, database, or both = clash; batch/concurrency 0..4 incl. unset) and 1-4 integrations placed in the file, in shovel.integrations, or both under the same name with different settings; enabled or disabled; 0..n source references with own start/stop; sometimes a reference to a source that exists nowhere. "
               "The real Manager runs in process against the fake Postgres and simulated nodes; 1-5 actions: store a new integration the way the dashboard does and Restart; Restart while a step of the running generation is held open inside an RPC call by a gate in the node; two Restart calls at once; plain Restart. "
               "Oracle after Run and after every Restart: the task list (hook Manager.VerifTasks: source, chain id, integration, start, stop, batch size, concurrency) equals the model's set (file wins on a name clash, disabled skipped, source settings with defaults), an unknown source reference of an enabled integration makes Run/Restart report an error; Restart never panics or hangs; "
-              "it does not return while a step of the previous generation is still held; on the fake's event log no two step-transactions of one (source, integration) pair are ever open at once. non-trivial = a name clash, an unknown source reference, a restart during a step, or concurrent restarts."),
+              "it does not return while a step of the previous generation is still held; on the fake's event log no two step-transactions of one (source, integration) pair are ever open at once. non-trivial = a name clash, an unknown source reference, a restart during a step, or concurrent restarts. OverlappingRestarts (directed, repaired finding 3e64aa1): one stored integration without a stop and 150 (thorough 1500) rounds of two Restart calls issued together; every call returns within 10 s and exactly the configured task runs afterwards."),
         assumptions=["'picked up' and 'has stopped' are checked with bounded waits; timings are generated, not exhaustive",
                      "every integration has a stop so that runners end by themselves (the Manager has no stop call)"],
         units=[
             R("TestC20_Manager", 960, 8000, shards=16, timeout=dict(quick=600, thorough=3000)),
+            P("TestC20_OverlappingRestarts"),
         ],
     ),
     "C18": dict(
